@@ -15,6 +15,7 @@ import (
 	gnet "github.com/panjf2000/gnet/v2"
 	"golang.org/x/sys/unix"
 
+	"verif/sim/racelog"
 	"verif/sim/runner"
 	"verif/sim/vnet"
 	"verif/sim/vsched"
@@ -71,6 +72,8 @@ type connState struct {
 	addrStr      string
 	udpOpenReply []byte // what OnOpen returned for a connected UDP socket, until checked
 	udpOpenAt    int
+	pub          int32 // race flavour: released by the connection's loop where the application would hand the connection on, acquired by whoever uses it from elsewhere
+	safeVals     []any // values handed to SetSafeContext for this connection
 }
 
 type peerState struct {
@@ -157,6 +160,8 @@ type World struct {
 	stopCallsPending int       // Engine.Stop calls of application tasks that have not returned
 	runDoneAt        time.Time // simulated time at which Run returned
 	tickIdx          int
+	races            []runner.Violation // race flavour: reports of the race detector attributed to the code under test
+	pubEng           int32              // race flavour: released when the application has its Engine / Client handle, acquired by its other goroutines
 	stopAskedStep    int
 	floodUsers       int // application tasks that issue asynchronous writes until Run returns
 	spinSeen         bool
@@ -217,6 +222,14 @@ func (w *World) logf(format string, a ...any) { w.h.Add(fmt.Sprintf(format, a...
 
 // Execute runs one plan inside a fresh bubble.
 func Execute(t *testing.T, p *Plan, prop string) (out runner.Outcome) {
+	if vsched.RaceEnabled && p.Cfg.LB == 0 && !p.Cfg.Client && usesEngineRegister(p) {
+		// Engine.Register is documented as racy under the default Round-Robin policy
+		// ("switch to another load-balancing algorithm ... to avoid data race issue if
+		// you plan on calling this method"): an application that minds the data-race
+		// detector follows that advice
+		p = clonePlan(p)
+		p.Cfg.LB = 1
+	}
 	w := &World{t: t, p: p, prop: prop, viol: map[string]*runner.Violation{}, probes: map[string]int{}, faults: map[string]int{},
 		byConn: map[gnet.Conn]*connState{}, loopTasks: map[string]int{}, inCall: map[string]int{}}
 	defer func() {
@@ -227,6 +240,19 @@ func Execute(t *testing.T, p *Plan, prop string) (out runner.Outcome) {
 		}
 		out = w.outcome()
 	}()
+	if vsched.RaceEnabled {
+		// a report of the race detector fails the bubble's test and synctest.Test
+		// then ends the calling test (FailNow): give it a test of its own to end
+		t.Run("run", func(t2 *testing.T) {
+			defer func() {
+				if r := recover(); r != nil {
+					w.violate("HARNESS", "bubble", "bubble ended abnormally: %v", r)
+				}
+			}()
+			synctest.Test(t2, func(t *testing.T) { w.run() })
+		})
+		return
+	}
 	synctest.Test(t, func(t *testing.T) { w.run() })
 	return
 }
@@ -241,6 +267,11 @@ func (w *World) outcome() runner.Outcome {
 	}
 	if v := w.viol[w.prop]; v != nil {
 		o.Violation = v
+		if w.prop == "C05" {
+			o.Alt = w.races
+		}
+	} else if w.prop == "C05" && len(w.races) > 0 {
+		o.Violation, o.Alt = &w.races[0], w.races[1:]
 	} else if v := w.viol["HARNESS"]; v != nil {
 		o.Inconcl = true
 		o.Note = v.Key + ": " + v.Msg
@@ -297,9 +328,16 @@ type recLogger struct{ w *World }
 
 func (l recLogger) Debugf(format string, args ...any) {}
 func (l recLogger) Infof(format string, args ...any)  {}
-func (l recLogger) Warnf(format string, args ...any)  { l.w.probes["log-warn"]++ }
-func (l recLogger) Errorf(format string, args ...any) { l.w.probes["log-error"]++ }
+func (l recLogger) Warnf(format string, args ...any) {
+	defer vsched.Restore(vsched.EnterHarness())
+	l.w.probes["log-warn"]++
+}
+func (l recLogger) Errorf(format string, args ...any) {
+	defer vsched.Restore(vsched.EnterHarness())
+	l.w.probes["log-error"]++
+}
 func (l recLogger) Fatalf(format string, args ...any) {
+	defer vsched.Restore(vsched.EnterHarness())
 	l.w.violate("HARNESS", "fatalf", "logger.Fatalf: "+format, args...)
 }
 
@@ -555,6 +593,7 @@ func (w *World) requestStop() {
 			ctx, cancel := context.WithTimeout(context.Background(), 30*time.Second)
 			defer cancel()
 			var err error
+			vsched.Acquire(&w.pubEng)
 			if w.p.Stop.Source == "gnet.Stop" {
 				err = gnet.Stop(ctx, w.addr)
 			} else {
@@ -1021,8 +1060,52 @@ func (w *World) finish() {
 		}
 	}
 	stuck := w.s.Teardown()
+	w.s.JoinAll()
+	if vsched.RaceEnabled {
+		w.raceReports()
+	}
 	if len(stuck) > 0 && w.viol["C06"] == nil && w.viol[w.prop] == nil {
 		w.violate("HARNESS", "stuck-tasks", "tasks could not be unwound: %v", stuck)
 	}
 	w.probes["untracked-yields"] += w.s.Untracked
+}
+
+// raceReports (race flavour): what the race detector reported during this run.
+// A report counts when both conflicting accesses were made by the code under
+// test; anything else is the harness looking at its own state from code that
+// is not marked as harness context, and is only counted.
+func (w *World) raceReports() {
+	for _, r := range racelog.New() {
+		if !r.InGnet() {
+			w.probes["race-reports-not-attributed-to-gnet"]++
+			if runner.Trace {
+				fmt.Println("  (race report outside gnet)", r.Describe())
+			}
+			continue
+		}
+		w.probes["race-reports"]++
+		// (not through violate: which pairs the detector still reports depends on what
+		// the process reported before, so they stay out of the event-log hash)
+		v := runner.Violation{Key: "C05/data-race/" + r.Key(), Msg: "the race detector, shown only the synchronisation of the framework itself, reports unordered conflicting accesses: " + r.Describe()}
+		dup := false
+		for _, x := range w.races {
+			dup = dup || x.Key == v.Key
+		}
+		if !dup {
+			w.races = append(w.races, v)
+		}
+	}
+	sort.Slice(w.races, func(i, j int) bool { return w.races[i].Key < w.races[j].Key })
+}
+
+func usesEngineRegister(p *Plan) bool {
+	for _, u := range p.Users {
+		for _, op := range u.Ops {
+			switch op.K {
+			case "register", "enroll", "enroll-other", "register-none":
+				return true
+			}
+		}
+	}
+	return false
 }
